@@ -71,6 +71,13 @@ func workers() int {
 	return 8
 }
 
+func recordPoolStats(p *pool) {
+	starts, deaths, restarts := p.stats()
+	ev.Count("worker_starts", starts)
+	ev.Count("worker_deaths", deaths)
+	ev.Count("worker_restarts", restarts)
+}
+
 func getPool() *pool {
 	poolOnce.Do(func() { thePool = newPool(workers()) })
 	return thePool
@@ -89,7 +96,7 @@ func buildStream(c *mutCase) ([]byte, int, error) {
 	if a == nil {
 		return nil, 0, fmt.Errorf("unknown api key %d", c.Key)
 	}
-	cf, err := buildFrame(a, c.Version, c.Variant, c.Seed)
+	cf, err := frameFromSeed(a, c.Version, c.Variant, c.Seed)
 	if err != nil {
 		return nil, 0, err
 	}
@@ -210,6 +217,7 @@ func evaluate(tb ev.TB, c *mutCase, stream []byte, r wres) bool {
 		if !same {
 			ev.Inconclusive(r.Outcome + "-not-reproduced")
 			ev.Count("unconfirmed_"+r.Outcome, 1)
+			ev.SampleTagged("unconfirmed_"+r.Outcome, 2, map[string]any{"case": withStream(*c, stream), "first": r.Msg, "stderr": firstLines(r.Stderr, 12), "second": r2.Outcome})
 			v = judge(c, stream, r2)
 			if v.sig == "" {
 				return true
@@ -366,6 +374,31 @@ func bigFieldWanted(f refcodec.LenField) bool {
 	return false
 }
 
+// sampleFields picks, per field kind, at most n fields of the frame, evenly
+// spread (always the first and the last); nil = all.
+func sampleFields(cf *corpusFrame, n int) map[int]bool {
+	if n <= 0 {
+		return nil
+	}
+	byKind := map[string][]int{}
+	for fi, f := range cf.Fields {
+		byKind[f.Kind] = append(byKind[f.Kind], fi)
+	}
+	out := map[int]bool{}
+	for _, idxs := range byKind {
+		if len(idxs) <= n {
+			for _, fi := range idxs {
+				out[fi] = true
+			}
+			continue
+		}
+		for k := 0; k < n; k++ {
+			out[idxs[k*(len(idxs)-1)/(n-1)]] = true
+		}
+	}
+	return out
+}
+
 func supplyModes(f refcodec.LenField) [][2]string { // (splice, supply)
 	if !f.Varint {
 		m := [][2]string{{"inplace", "exact"}, {"inplace", "trail"}, {"inplace", "prefix"}}
@@ -393,20 +426,17 @@ func enumerate(t *testing.T, onlyArrays bool) {
 	seed := ev.Seed()
 	shard, shards := shardOf()
 	p := getPool()
-	defer func() {
-		starts, deaths, restarts := p.stats()
-		ev.Count("worker_starts", starts)
-		ev.Count("worker_deaths", deaths)
-		ev.Count("worker_restarts", restarts)
-	}()
+	defer recordPoolStats(p)
 
 	// 1. corpus
 	var corpus []*corpusFrame
 	k := 0
-	nSeeds := 1
+	// frames per (api, version, variant): picked to cover the length fields of the schema
+	maxFrames := 2
 	if thorough {
-		nSeeds = 2
+		maxFrames = 4
 	}
+	var slotsSeen, slotsCovered, schemaTotal, schemaMissing int64
 	for i := range refcodec.APIs {
 		a := &refcodec.APIs[i]
 		for _, ver := range versionsFor(a, thorough, seed) {
@@ -415,23 +445,49 @@ func enumerate(t *testing.T, onlyArrays bool) {
 				continue
 			}
 			for _, variant := range variantsFor(a) {
-				for s := 0; s < nSeeds; s++ {
-					if variant == "big" && (s > 0 || !thorough && ver != a.Min && ver != a.Max) {
-						continue // quick: the 600-element frames only at the first and last version
+				if variant == "big" && !thorough && ver != a.Min && ver != a.Max {
+					continue // quick: the 600-element frames only at the first and last version
+				}
+				fs, seen, covered, err := buildFrames(a, ver, variant, int(seed), maxFrames)
+				if err == errNoArray {
+					ev.Count("no_big_variant", 1)
+					continue
+				}
+				if err != nil {
+					t.Fatalf("harness: corpus %s v%d %s: %v", a.Name, ver, variant, err)
+				}
+				corpus = append(corpus, fs...)
+				if thorough && variant != "big" {
+					// a second, independent draw of values and shapes
+					if more, _, _, err := buildFrames(a, ver, variant, int(seed)+7919, 2); err == nil {
+						corpus = append(corpus, more...)
 					}
-					cf, err := buildFrame(a, ver, variant, int(seed)*4+s)
-					if err == errNoArray {
-						ev.Count("no_big_variant", 1)
-						continue
+				}
+				if variant != "big" {
+					slotsSeen += int64(seen)
+					slotsCovered += int64(covered)
+					// every length field of the schema must be met by some frame
+					have := map[string]bool{}
+					for _, cf := range fs {
+						for k := range slotsOf(cf.Fields) {
+							have[k] = true
+						}
 					}
-					if err != nil {
-						t.Fatalf("harness: corpus %s v%d %s: %v", a.Name, ver, variant, err)
+					for k := range schemaSlots(a, ver) {
+						schemaTotal++
+						if !have[k] {
+							schemaMissing++
+							ev.SampleTagged("schema_field_not_in_corpus", 3, fmt.Sprintf("%s v%d %s: %s", a.Name, ver, variant, k))
+						}
 					}
-					corpus = append(corpus, cf)
 				}
 			}
 		}
 	}
+	ev.Count("schema_length_fields_seen_in_candidates", slotsSeen)
+	ev.Count("schema_length_fields_in_corpus", slotsCovered)
+	ev.Count("schema_table_length_fields", schemaTotal)
+	ev.Count("schema_table_length_fields_missing_from_corpus", schemaMissing)
 	ev.Count("corpus_frames", int64(len(corpus)))
 
 	// 2. the unmutated corpus validates the harness: every frame decodes, is
@@ -479,13 +535,22 @@ func enumerate(t *testing.T, onlyArrays bool) {
 		ev.Note("largest_unmutated_alloc_ratio", fmt.Sprintf("%.0fx: %s", maxRatio, maxRatioWhat))
 	}
 
-	// 3. mutations
+	// 3. mutations (quick: at most perKind fields of a kind per frame, evenly
+	// spread over the frame; thorough: every field)
+	perKind := 0
+	if !thorough {
+		perKind = 8
+	}
 	jobs = make(chan job, 256)
 	go func() {
 		defer close(jobs)
 		for _, cf := range corpus {
+			wanted := sampleFields(cf, perKind)
 			for fi, f := range cf.Fields {
 				if cf.Variant == "big" && !bigFieldWanted(f) {
+					continue
+				}
+				if wanted != nil && !wanted[fi] {
 					continue
 				}
 				if onlyArrays && f.Kind != "array" && f.Kind != "compact_array" && f.Kind != "frame_size" {
